@@ -290,7 +290,8 @@ class _GlobSplit(Generic[AnyStr]):
         else:
             v = value
         if globstar and l and l[-1].is_globstar:
-            l[-1] = _GlobPart(v, magic, globstar, globstarlong, dir_only, False)
+            # Consecutive `globstars` merge; the merged one follows links if any of them (`***`) does.
+            l[-1] = _GlobPart(v, magic, globstar, globstarlong or l[-1].is_globstarlong, dir_only, False)
         else:
             l.append(_GlobPart(v, magic, globstar, globstarlong, dir_only, False))
 
